@@ -313,7 +313,8 @@ class FFTMTF:
             float: The MTF units calculated based on the grid size, number
                 of rays, wavelength, and F-number.
         """
-        Q = self.grid_size / self.num_rays
-        dx = Q / (self.wavelength * self.FNO)
+        # frequency step of the FFT of the PSF in cycles/mm: the PSF pixel is
+        # wavelength * FNO * (num_rays - 1) / grid_size wide
+        dx = 1 / ((self.num_rays - 1) * self.wavelength * 1e-3 * self.FNO)
 
         return dx
